@@ -54,8 +54,8 @@ def run(ctx):
     if lister["ok"] < 100:
         raise core.Machinery("mp4ff-pslister printed only %d (SPS, PPS) pairs" % lister["ok"])
     ctx.cov["bounds"] = {"avc_sps": "6 base vectors x every field over its boundary set%s; VUI/HRD single-field and branch pairs" % ("" if q else " + all field pairs on 2 bases"),
-                         "avc_pps": "single-field%s variations x 6 (pps id, sps id) assignments x 2 SPS contexts" % ("" if q else " and pairwise"),
-                         "avc_slice": "single-field variations x 5 SPS contexts x 5 PPS contexts x nal types {1,5} x nal_ref_idc {0,1,3}, slice types 0..9",
+                         "avc_pps": "single-field%s variations x 6 (pps id, sps id) assignments x 3 SPS contexts (4:2:0, 4:4:4, 4:4:4 separate planes); slice groups: map types 0-6 x {2,3,8} groups" % ("" if q else " and pairwise"),
+                         "avc_slice": "single-field variations x 5 SPS contexts x 7 PPS contexts (two with slice group map types 3 / 5: slice_group_change_cycle) x nal types {1,5} x nal_ref_idc {0,1,3}, slice types 0..9",
                          "hevc_sps": "7 base vectors (1..7 sub-layers, 4:0:0/4:2:0/4:2:2/4:4:4 + separate planes, 7 short-term RPS lists incl. inter-predicted chains, long-term pictures, "
                                      "scaling lists, PCM, range extension) x every field over its boundary set%s; VUI and HRD (sub-picture, NAL/VCL, per-sub-layer branches) single-field and branch pairs; "
                                      "hvcC record and codec string built from every vector" % ("" if q else " + all field pairs on 2 bases"),
@@ -68,6 +68,6 @@ def run(ctx):
                        "standard (incl. emulation prevention) and parsed by the real parser; non-trivial = vector reached the field comparison")
     ctx.cov["traces_validated_against_impl"] = 0
     ctx.assumptions += ["scaling lists that fall back to the default matrix (first delta makes nextScale 0) are not compared",
-                        "slice groups, MVC/SVC NAL types and explicit pred-weight values are outside the generated AVC syntax",
+                        "AVC slice groups are generated with fixed inner values (run lengths, rectangles, ids per position); MVC/SVC NAL types and explicit pred-weight values are outside the generated AVC syntax",
                         "HEVC multilayer / 3D / SCC extensions and VPS parsing are outside the generated syntax; scaling list data is only skipped by the parser, so only its length is exercised"]
     return ctx.finish("model_checking", exhaustive=True)
